@@ -41,6 +41,7 @@ import (
 // quantifier: "the 30 s retention"). It is deliberately NOT read from the code:
 // a tree that retains for less must fail.
 const retention = 30 * time.Second
+const vacuumTick = 5 * time.Second // the accessor's vacuum period: an anchor is gone at the latest one period after its retention
 
 // vacOwner identifies the timers of the two MapVacuum loops
 // (lunar/toolkit-core/vacuum.(*MapVacuum[...]).vacuumInBackground.func1).
@@ -180,6 +181,7 @@ type pin struct {
 	t0      time.Time
 	ver     int // index into env.vers
 	ticksAt int
+	last    time.Time // the request, or the latest look-up at or after the retention (which may anchor the id afresh)
 }
 
 type obs struct {
@@ -323,8 +325,11 @@ func (e *env) lookup(id string, side string) error {
 	e.note(side+" "+fmt.Sprintf("%q", id), got)
 	cur := len(e.vers) - 1
 	p := e.pins[id]
+	if p != nil && now.Sub(p.t0) >= retention {
+		defer func() { p.last = now }() // any look-up from the retention instant on may be the one that anchors the id afresh
+	}
 	if p == nil {
-		e.pins[id] = &pin{t0: now, ver: cur, ticksAt: e.ticks}
+		e.pins[id] = &pin{t0: now, ver: cur, ticksAt: e.ticks, last: now}
 		if cur > 0 {
 			e.classes["first-lookup:after-a-reload"]++
 		} else {
@@ -500,7 +505,7 @@ func firstLine(s string) string {
 // ---- histories ------------------------------------------------------------------
 
 type event struct {
-	K        string `json:"k"`                  // req | resp | reload | adv | until (= advance to the boundary, then resp)
+	K        string `json:"k"`                  // req | resp | reload | adv | until (= advance to the boundary, then resp) | reuse (a new transaction with the id of Txn, once the retention plus a vacuum period have passed since its request (or since a look-up that came after its retention); else a response of Txn)
 	Txn      int    `json:"txn,omitempty"`      // index into hist.IDs
 	How      string `json:"how,omitempty"`      // reload kind
 	Endpoint bool   `json:"endpoint,omitempty"` // reload carries an enabled endpoint remedy (HAProxy calls)
@@ -552,6 +557,21 @@ func (e *env) run(h hist, probe bool) error {
 				return infra("response for a transaction that was never requested")
 			}
 			err = e.lookup(h.IDs[v.Txn], "response")
+		case "reuse":
+			// the id of an earlier transaction comes again (x-lunar-req-id is client text; retried calls re-send it):
+			// once the earlier transaction's retention and a further vacuum period are over it is a new transaction
+			id := h.IDs[v.Txn]
+			if p := e.pins[id]; p == nil || e.clk.Now().Sub(p.last) < retention+vacuumTick+time.Second {
+				if p == nil {
+					return infra("reuse of a transaction that was never requested")
+				}
+				e.classes["ev:response"]++
+				err = e.lookup(id, "response")
+				break
+			}
+			delete(e.pins, id)
+			e.classes["ev:request that re-uses the id of a transaction whose retention is over"]++
+			err = e.lookup(id, "request (id re-used)")
 		case "reload":
 			e.classes["ev:reload"]++
 			err = e.reload(v.How, v.Endpoint)
@@ -620,6 +640,17 @@ func genHist(maxEvents int) *rapid.Generator[hist] {
 		if rapid.IntRange(0, 3).Draw(t, "wave") == 0 {
 			waveAt = rapid.IntRange(0, n-1).Draw(t, "waveAt") / 2
 		}
+		// one history in six starts with a transaction that straddles a reload and is answered late, whose id comes
+		// again once its retention and a vacuum period are over, in front of another reload, and is answered a good
+		// while later - still inside the retention of the second transaction
+		if rapid.IntRange(0, 5).Draw(t, "id-comes-again") == 0 {
+			d := rapid.SampledFrom([]int64{10000, 19000, 24000}).Draw(t, "late")
+			evs = append(evs, event{K: "req", Txn: 0}, event{K: "adv", Ms: 1000}, event{K: "reload", How: "data"}, event{K: "adv", Ms: d}, event{K: "resp", Txn: 0},
+				event{K: "adv", Ms: 36000 - 1000 - d + rapid.SampledFrom([]int64{0, 0, 1000}).Draw(t, "slack")}, event{K: "reuse", Txn: 0},
+				event{K: "adv", Ms: 1000}, event{K: "reload", How: rapid.SampledFrom([]string{"data", "file"}).Draw(t, "how2")}, event{K: "adv", Ms: d}, event{K: "resp", Txn: 0})
+			txns = 1
+			n += len(evs)
+		}
 		for len(evs) < n {
 			if len(evs) == waveAt {
 				evs = append(evs, event{K: "burst", N: rapid.SampledFrom([]int{40, 127, 128, 129, 150, 260, 600}).Draw(t, "waveN")})
@@ -627,7 +658,7 @@ func genHist(maxEvents int) *rapid.Generator[hist] {
 			}
 			kinds := []string{"req", "req", "reload", "reload", "adv", "adv", "adv"}
 			if txns > 0 {
-				kinds = []string{"resp", "resp", "resp", "resp", "adv", "adv", "adv", "reload", "reload", "reload", "req", "req", "until"}
+				kinds = []string{"resp", "resp", "resp", "resp", "adv", "adv", "adv", "reload", "reload", "reload", "req", "req", "until", "reuse"}
 			}
 			switch k := rapid.SampledFrom(kinds).Draw(t, "kind"); k {
 			case "req":
@@ -635,6 +666,8 @@ func genHist(maxEvents int) *rapid.Generator[hist] {
 				txns++
 			case "resp":
 				evs = append(evs, event{K: "resp", Txn: rapid.IntRange(0, txns-1).Draw(t, "txn")})
+			case "reuse":
+				evs = append(evs, event{K: "reuse", Txn: rapid.IntRange(0, txns-1).Draw(t, "txn")})
 			case "until":
 				evs = append(evs, event{K: "until", Txn: rapid.IntRange(0, txns-1).Draw(t, "txn"), Ms: rapid.SampledFrom(untilMs).Draw(t, "off")})
 			case "reload":
